@@ -81,6 +81,10 @@ def run(ctx):
     kinds = ("memory", "local", "local_lru", "local")
     try:
         recs = hist.run_histories(ctx, res, 240 if thorough else 44, 10 if thorough else 6, store_kinds=kinds, on_record=on_record, at_step=at_step)
+        # directed: the evaluated function is itself kept (top-level keep) and keeps other paths inside; edits followed by
+        # reverts bring back signatures the store already holds - the inner paths must follow
+        recs += hist.run_histories(ctx, res, 60 if thorough else 14, 5, store_kinds=("memory", "local"), on_record=on_record, at_step=at_step,
+                                   edit_kinds=["var", "revert", "body", "revert", "const_arg", "revert"], entry_kind="keep")
     finally:
         if fresh[0] is not None:
             fresh[0].close()
